@@ -13,7 +13,7 @@ use super::sendbody::{send_body_call, send_body_flow};
 use crate::engine::{explore, pattern, validate_traces, Limits, Report, Sys, Tier, Violation};
 use crate::refmodel::chunked::decode_strict;
 
-pub const RULE: &str = "explicit-state search over the real chunked body writer (Flow::<SendBody> of a POST, Flow::<SendBody> of a GET with send-body-despite-method and no framing header, Call::<WithBody>): from EVERY reachable state (key = full fingerprint + terminators emitted so far) every write(input[..i], out[..b]) of the grid i in 0..=48 u {255..257,4095..4097,10239..10241,10245,10246,10253,10254,20480,20481,30730} x b in 0..=64 u 4090..=4110 u 10240..=10270 u 20488..=20520 (thorough: i in 0..=300, b in 0..=320 in addition); so all sequences of such calls incl. finishing writes anywhere and repeated are covered. distinct = distinct (state, input class, chunks emitted, terminator emitted) transition classes";
+pub const RULE: &str = "explicit-state search over the real chunked body writer (Flow::<SendBody> of a POST, Flow::<SendBody> of a GET with send-body-despite-method and no framing header, Flow::<SendBody> of a POST carrying transfer-encoding: chunked AND content-length: 0, Call::<WithBody>): from EVERY reachable state (key = full fingerprint + terminators emitted so far) every write(input[..i], out[..b]) of the grid i in 0..=48 u {255..257,4095..4097,10239..10241,10245,10246,10253,10254,20480,20481,30730} x b in 0..=64 u 4090..=4110 u 10240..=10270 u 20488..=20520 (thorough: i in 0..=300, b in 0..=320 in addition); so all sequences of such calls incl. finishing writes anywhere and repeated are covered. distinct = distinct (state, input class, chunks emitted, terminator emitted) transition classes";
 
 #[derive(Clone)]
 enum W {
@@ -191,10 +191,16 @@ fn fresh(front: &str, g: &Arc<Grid>, classes: &Arc<std::sync::Mutex<std::collect
             "flow" => W::Flow(send_body_flow(None)),
             // GET + send_body_despite_method() without a framing header: chunked by default
             "flow-despite" => W::Flow(super::sendbody::send_body_flow_despite("GET")),
+            // both framing headers on a POST (chunked wins); the length header must not influence the writer
+            "flow-te-cl0" => W::Flow(super::sendbody::send_body_flow_te_and_len(0)),
             _ => W::Call(send_body_call(None)),
         },
         terms: 0,
-        front_name: if front == "flow-despite" { "flow-despite" } else { "flow" },
+        front_name: match front {
+            "flow-despite" => "flow-despite",
+            "flow-te-cl0" => "flow-te-cl0",
+            _ => "flow",
+        },
         grid: g.clone(),
         classes: classes.clone(),
     }
@@ -203,7 +209,7 @@ fn fresh(front: &str, g: &Arc<Grid>, classes: &Arc<std::sync::Mutex<std::collect
 pub fn run(tier: Tier) -> Report {
     let g = Arc::new(grid(tier));
     let mut rep = Report::new();
-    let fronts = ["flow", "call", "flow-despite"];
+    let fronts = ["flow", "call", "flow-despite", "flow-te-cl0"];
     let parts: Vec<Report> = std::thread::scope(|sc| {
         let hs: Vec<_> = fronts
             .iter()
@@ -213,7 +219,6 @@ pub fn run(tier: Tier) -> Report {
                     let mut rep = Report::new();
                     let classes = Arc::new(std::sync::Mutex::new(Default::default()));
                     let _wd = crate::engine::watch(|| format!("C03 exploration front={}", front));
-                    crate::engine::WD_LIMIT_S.store(600, std::sync::atomic::Ordering::Relaxed);
                     let ex = explore(fresh(front, &g, &classes), &Limits { max_states: 10_000, keep_state_traces: 8, ..Default::default() });
                     rep.states += ex.states;
                     rep.transitions += ex.transitions;
